@@ -18,6 +18,9 @@
 //                           SEND steps are issued by worker threads (their send() returns, the command stays queued),
 //     CBSEND <n>            the parked callback itself calls send() on the session (a send from the I/O thread),
 //     RELEASE               the callback returns.   gateconn=1: the accept / connect callback parks right at session set-up.
+//     PARKEV                the I/O thread will park at its next read(2) of the engine's eventfd (the wake-up counter): the
+//                           SEND that wakes it up parks it there, further SENDs land in the window between the wake-up
+//                           and the drain; RELEASE lets it go on.  (read(2) on the eventfd is interposed.)
 //     AUTODRAIN <n>         fake kernel: right after the next write that is cut short, n more units of room appear (the peer's
 //                           ACKs free send-buffer space between two doSend() calls of one process() pass)
 //     keys: chunk=<ioReadChunk bytes, 0 = default> rec=<plaintext bytes per TLS record written by the peer, default 16384>
@@ -27,7 +30,13 @@
 //           write calls cut short) rcutmax= (reads capped at a random size up to this, 0 = off) pwrites= (payloads written
 //           by the peer) seed=
 //
-// Fault injection = definitions of send/recv/write/read/epoll_ctl/accept4/connect in this executable (they win over
+// Quiescence is OBSERVED, never provoked: the driver does not send commands of its own through the engine (a command
+// would wake the loop and hide a lost wake-up).  epoll_wait on the engine's epoll descriptor is interposed: the I/O
+// thread is idle when it has been inside epoll_wait for a moment without returning an event; a step is over after two
+// further loop rounds without I/O attempts, or when it is idle, or when it polls a full (fake) socket.  All waits are
+// bounded; when nothing moves any more although something is outstanding, finish() logs a stall Note and End - the trace
+// specification rejects an End with accepted bytes missing on an open session.
+// Fault injection = definitions of send/recv/write/read/epoll_ctl/epoll_wait/eventfd/accept4/connect in this executable (they win over
 // libc's for the engine's inline code and for libcrypto's socket BIO).  The "fake kernel" of seq mode: a write on the
 // session socket takes min(room, n) bytes (passed on to the real socket) and answers EAGAIN when room = 0; DRAIN adds
 // room and - as the real kernel does when a full socket becomes writable - wakes epoll (EPOLL_CTL_MOD with the engine's
@@ -84,6 +93,15 @@ struct FakeKernel
   std::atomic<int> cutPerMille{0};
   std::atomic<long> rcutMax{0};
   std::mt19937_64 rng{1};
+  // the I/O loop as seen at epoll_wait (engine's epoll descriptor only)
+  std::atomic<int> epfdA{-1};
+  std::atomic<bool> inWait{false};
+  std::atomic<int> lastRet{1};
+  std::atomic<long> waitEnter{0}, wakes{0};
+  std::atomic<double> lastActive{0.0};
+  // the engine's eventfd and the park at its read
+  std::atomic<int> evFd{-1};
+  std::atomic<bool> parkEvArmed{false};
   // epoll bookkeeping of the session fd
   Spin elk;
   int epfd = -1;
@@ -168,6 +186,8 @@ typedef ssize_t (*recv_t)(int, void *, size_t, int);
 typedef ssize_t (*write_t)(int, const void *, size_t);
 typedef ssize_t (*read_t)(int, void *, size_t);
 typedef int (*epctl_t)(int, int, int, struct epoll_event *);
+typedef int (*epwait_t)(int, struct epoll_event *, int, int);
+typedef int (*evfd_fn_t)(unsigned int, int);
 typedef int (*accept4_t)(int, struct sockaddr *, socklen_t *, int);
 typedef int (*connect_t)(int, const struct sockaddr *, socklen_t);
 #define REAL(type, name)                                \
@@ -181,8 +201,12 @@ REAL(recv_t, recv)
 REAL(write_t, write)
 REAL(read_t, read)
 REAL(epctl_t, epoll_ctl)
+REAL(epwait_t, epoll_wait)
+REAL(evfd_fn_t, eventfd)
 REAL(accept4_t, accept4)
 REAL(connect_t, connect)
+
+static void (*g_parkAtEventfd)() = nullptr;
 
 template <class F> static ssize_t fakeWrite(int fd, size_t n, F realCall)
 {
@@ -264,17 +288,58 @@ extern "C" ssize_t recv(int fd, void *b, size_t n, int fl)
 }
 extern "C" ssize_t read(int fd, void *b, size_t n)
 {
+  if (fd >= 0 && fd == K.evFd.load() && K.parkEvArmed.exchange(false) && g_parkAtEventfd) g_parkAtEventfd();
   if (fd != K.sessFd.load()) return real_read()(fd, b, n);
   return fakeRead(fd, n, [&](size_t k) { return real_read()(fd, b, k); });
 }
+// eventfds created in this process and the epoll descriptor each was added to (the engine's is the one that shares the
+// epoll descriptor with the session socket; the TimerService has its own pair)
+static std::atomic<int> g_evfds[16];
+static std::atomic<int> g_evEp[16];
+static std::atomic<int> g_nev{0};
+extern "C" int eventfd(unsigned int init, int flags)
+{
+  int fd = real_eventfd()(init, flags);
+  int i = g_nev.load();
+  if (fd >= 0 && i < 16)
+  {
+    g_evfds[i] = fd;
+    g_evEp[i] = -1;
+    g_nev = i + 1;
+  }
+  return fd;
+}
+extern "C" int epoll_wait(int epfd, struct epoll_event *evs, int maxev, int timeout)
+{
+  if (epfd != K.epfdA.load()) return real_epoll_wait()(epfd, evs, maxev, timeout);
+  if (K.lastRet.load() > 0) K.lastActive = vf::nowSec(); // the handlers of the previous round are done
+  K.waitEnter++;
+  K.inWait = true;
+  int r = real_epoll_wait()(epfd, evs, maxev, timeout);
+  K.inWait = false;
+  K.lastRet = r;
+  if (r > 0)
+  {
+    K.wakes++;
+    K.lastActive = vf::nowSec();
+  }
+  return r;
+}
 extern "C" int epoll_ctl(int epfd, int op, int fd, struct epoll_event *ev)
 {
+  if (op == EPOLL_CTL_ADD)
+    for (int i = 0, n = g_nev.load(); i < n; ++i)
+      if (g_evfds[i].load() == fd) g_evEp[i] = epfd;
   if (fd != K.sessFd.load()) return real_epoll_ctl()(epfd, op, fd, ev);
   K.elk.lock();
   int r = real_epoll_ctl()(epfd, op, fd, ev);
   if (r == 0 && ev && (op == EPOLL_CTL_ADD || op == EPOLL_CTL_MOD))
   {
+    if (K.evFd.load() < 0)
+      for (int i = 0, n = g_nev.load(); i < n; ++i)
+        if (g_evEp[i].load() == epfd) K.evFd = g_evfds[i].load();
     K.epfd = epfd;
+    K.epfdA = epfd;
     K.ev = *ev;
     K.haveEv = true;
   }
@@ -368,9 +433,17 @@ struct Exec
   int nextIdx = 1, nextPidx = 1;
   // parking the I/O thread inside a callback (gate) and letting it send from there
   std::atomic<bool> gateArmed{false}, parked{false}, gateOpen{true};
+  bool evParkPending = false;
   std::atomic<long> cbReqLen{0};  // > 0: the parked callback shall send a payload of this length ...
   std::atomic<int> cbReqIdx{0};   // ... with this index
 
+  // runs on the I/O thread, right before its read(2) of the eventfd
+  void parkAtEventfd()
+  {
+    parked = true;
+    while (!gateOpen.load()) usleep(50);
+    parked = false;
+  }
   // runs on the I/O thread inside a callback
   void maybePark()
   {
@@ -416,10 +489,24 @@ struct Exec
     infra = true;
     g_trace.add(vf::Ev("Infra").str("why", why));
   }
+  // the I/O thread sits in epoll_wait (or keeps timing out of it) and has not returned an event for a moment
+  bool ioIdle()
+  {
+    return K.epfdA.load() >= 0 && (K.inWait.load() || K.lastRet.load() == 0) && vf::nowSec() - K.lastActive.load() > 0.002;
+  }
+  // wait (bounded) until the I/O loop has gone round twice more or is idle - pure observation, no command is sent
   void barrier()
   {
-    if (!gateOpen.load()) return; // the I/O thread is parked: nothing can be processed (and this call would block)
-    (void)tr->addListener("!", 0, TlsMode::None);
+    if (!gateOpen.load()) return; // the I/O thread is parked
+    long e0 = K.waitEnter.load();
+    waitUntil([&] { return K.waitEnter.load() >= e0 + 2 || ioIdle() || closedSeen.load(); }, 0.05);
+  }
+  // after a command was enqueued at loop round e0 / wake-up count w0: the loop has woken up and gone round (or is idle again).
+  // Bounded: a lost wake-up must not hang the driver - it shows up at End.
+  void afterCommand(long e0, long w0)
+  {
+    if (!gateOpen.load()) return;
+    waitUntil([&] { return K.waitEnter.load() >= e0 + 2 || (K.wakes.load() > w0 && ioIdle()) || closedSeen.load(); }, 0.25);
   }
   bool waitUntil(const std::function<bool()> &f, double sec)
   {
@@ -568,7 +655,6 @@ struct Exec
     {
       long w0 = K.wcalls.load(), r0 = K.rcalls.load();
       peerRead(1 << 30);
-      barrier();
       barrier();
       if (closedSeen.load()) break;
       K.lk.lock();
@@ -777,6 +863,7 @@ struct Exec
   {
     if (gateOpen.load()) return;
     gateArmed = false;
+    K.parkEvArmed = false;
     gateOpen = true;
     waitUntil([&] { return !parked.load(); }, 5.0);
   }
@@ -832,8 +919,14 @@ struct Exec
         int idx = nextIdx++;
         long n = units(w[2]);
         g_len[idx] = (int)n;
+        long e0 = K.waitEnter.load(), w0 = K.wakes.load();
         doSend(w[1], n, idx);
-        barrier();
+        if (evParkPending) // (PARKEV: this send wakes the loop, which parks at its eventfd read)
+        {
+          if (waitUntil([&] { return parked.load(); }, 1.0)) g_trace.add(vf::Ev("Note").str("what", "parked-at-eventfd-read"));
+          evParkPending = false;
+        }
+        afterCommand(e0, w0);
         settle();
       }
       else if (op == "DRAIN")
@@ -926,6 +1019,13 @@ struct Exec
         barrier();
         settle();
       }
+      else if (op == "PARKEV")
+      {
+        if (!gateOpen.load() || K.evFd.load() < 0) continue;
+        gateOpen = false;
+        K.parkEvArmed = true;
+        evParkPending = true;
+      }
       else if (op == "AUTODRAIN")
       {
         K.lk.lock();
@@ -945,8 +1045,9 @@ struct Exec
       }
       else if (op == "CLOSE")
       {
+        long e0 = K.waitEnter.load(), w0 = K.wakes.load();
         tr->close(sid.load());
-        barrier();
+        afterCommand(e0, w0);
         settle();
       }
       else
@@ -1071,11 +1172,25 @@ struct Exec
     else
       runConc();
     g_logging = false;
-    tr->stop();
-    tr.reset();
+    // stop() enqueues a command and joins the I/O thread: bounded, so that an engine that misses the wake-up cannot hang the
+    // driver (the execution has been recorded by now)
+    std::atomic<bool> stopped{false};
+    std::thread stopper([&] {
+      tr->stop();
+      stopped = true;
+    });
+    if (waitUntil([&] { return stopped.load(); }, 5.0))
+    {
+      stopper.join();
+      tr.reset();
+    }
+    else
+      stopper.detach();
     return g_trace.text();
   }
 };
+
+static Exec *g_exec = nullptr;
 
 int main(int argc, char **argv)
 {
@@ -1097,10 +1212,12 @@ int main(int argc, char **argv)
   auto r = vf::runMany((int)lines.size(), atoi(argv[4]), 120.0, scratch, out,
                        [&](int i)
                        {
-                         Exec x;
-                         x.certPath = cert;
-                         x.keyPath = key;
-                         return x.run(lines[i]);
+                         Exec *x = new Exec; // (never destroyed: the child _exit()s; a hung engine must not hang a destructor)
+                         g_exec = x;
+                         g_parkAtEventfd = [] { g_exec->parkAtEventfd(); };
+                         x->certPath = cert;
+                         x->keyPath = key;
+                         return x->run(lines[i]);
                        });
   printf("executions=%d crashed=%d timedOut=%d\n", r.executions, r.crashed, r.timedOut);
   return 0;
